@@ -153,7 +153,7 @@ R18.6 the follow-up run gives every interface selected by the written 'all: true
 	c.Func(funcKey(cmdp, fd))
 	var sites []effectSite
 	for _, s := range effectSites(r, cmdp) {
-		if s.Func == "internal/cmd.initRun" {
+		if s.OwnedBy("internal/cmd.initRun") {
 			sites = append(sites, s)
 		}
 	}
@@ -169,6 +169,7 @@ R18.6 the follow-up run gives every interface selected by the written 'all: true
 		c.Check(strings.Contains(fl, "|O_CREATE|") && strings.Contains(fl, "|O_EXCL|") && !strings.Contains(fl, "|O_TRUNC|") && !strings.Contains(fl, "|O_APPEND|"), "R18.1", "initRun|exclusive-create", s.Pos, "OpenFile("+s.Flags+")", "the config file is opened with "+s.Flags+": without O_CREATE|O_EXCL (and with O_TRUNC/O_APPEND) an existing file is modified instead of the command failing")
 		// receiver: pathlib.NewPath(filename) with filename defaulted before
 		d := newDT(info)
+		d.callInline = pkgUnexported(cmdp)
 		d.paths = nil
 		d.stmts(seedEnv(d, fd), fd.Body.List, func(p *dtPath) { d.finish(p, "end") })
 		okPath, okEnc := true, true
@@ -578,7 +579,7 @@ func ruleMigrateRun(c *Ctx, r *Repo, cmdp *packages.Package) {
 	// R19.3
 	var sites []effectSite
 	for _, e := range effectSites(r, cmdp) {
-		if e.Func == "internal/cmd.run" {
+		if e.OwnedBy("internal/cmd.run") {
 			sites = append(sites, e)
 		}
 	}
